@@ -28,7 +28,8 @@ EXPLANATION = (
     "_maxSize, and every return of shutdown() is behind the join, a wait, or a mutex the joining caller holds (known finding: second shutdown()); "
     "R11 every unconditional spawn site (constructor, start(): a spawnWorker() call that is not behind the thread-cap test) is reached only after the creating function itself stored false into "
     "_shutdown (or initialised it so) on every path — a worker created while the flag is still set takes the shutdown exit at once and leaves a dead entry in the worker map. "
-    "R2, R5, R9, R10, R11 follow calls into the pool's private helpers (a helper 'does X' when all its paths do; a helper's constant results are tabulated against the event they report).")
+    "R2, R5, R9, R10, R11 follow calls into the pool's private helpers (a helper 'does X' when all its paths do; a helper's constant results are tabulated against the event they report; bool locals that carry "
+    "such a result are followed as atoms).  R3, R4, R8 follow the worker's task, wait and lock into local lambdas of the worker body that receive them by reference.")
 # exempt from the function-inventory guard (report.py): these rules hold for, or look into, functions they have never seen
 FOLLOWS_HELPERS = {"C09-R1": "universal: every access to a guarded field is judged where it is, with the entry lock set of a private helper taken from its call sites",
                    "C09-R2": "the push, the refusals and the notify are followed into the pool's private helpers (push_sites, submit_flow: does / result_table)",
@@ -68,6 +69,15 @@ def tasks_call(n, methods=None):
 def is_lock_type(t):
     """lock_guard / unique_lock / scoped_lock / shared_lock — one spelling is as good as another"""
     return bool(LOCK_TYPES.match(t or ""))
+
+
+def local_lambda_call(f, n):
+    """(lambda Function, explicit arguments) when n calls a lambda created in f — a local lambda used like a function — else None"""
+    if isinstance(n, dict) and n.get("k") == "opcall" and n.get("op") == "()" and n.get("callee"):
+        for (ln, lf) in f.lambdas:
+            if lf.ok and lf.name == n["callee"]:
+                return lf, n["args"][1:]
+    return None
 
 
 def own(f):
@@ -211,35 +221,54 @@ def result_leaf(ctx, f, direct, atom):
     return leaf
 
 
-def flag_locals(f, vocab_atoms):
-    """bool locals used as flags — every definition is a constant (`bool found = false; … found = true;`) — become atoms of their
-    own: (leaf, effects, atom names).  A branch on such a flag is then as good as a branch at the place where it was set."""
-    defs = {}
+def bool_locals(f, inner, nbase):
+    """every bool local of f becomes an atom of its own: (leaf, effects, atom names).  A definition by a constant sets it
+    (`bool found = false; … found = true;`), a definition by an expression the inner leaf can translate assigns it that formula
+    (`signalled = beginLocked();` — a partial translation keeps what it implies), any other definition havocs it.  A branch on
+    such a local is then as good as a branch at the place where it was defined; no local is known by name."""
+    decls, defs = set(), {}
     for e in f.stmts():
         n = e.node
         if n.get("k") == "decl":
             for v in n["vars"]:
                 if finite._ty(v.get("t")) == "bool":
-                    defs.setdefault(v["d"], []).append((e, const_value(v["init"]) if v.get("init") is not None else None))
+                    decls.add(v["d"])
+                    defs.setdefault(e, []).append((v["d"], v.get("init"), v.get("init") is None))
     for e in f.stmts():
         n = e.node
         if n.get("k") == "bin" and n.get("op", "").endswith("=") and n["op"] not in ("==", "!=", "<=", ">="):
             l = strip_casts(n["lhs"])
-            if l is not None and l.get("k") == "var" and l.get("d") in defs and l.get("parm") is None:
-                defs[l["d"]].append((e, const_value(n["rhs"]) if n["op"] == "=" else None))
-    for x in f.nodes.values():        # a flag handed to a call may be written there: not tracked
-        if x.get("k") == "var" and x.get("d") in defs and x.get("parm") is None and (f.nodes.get(f.parent.get(x["id"])) or {}).get("k") in ("call", "mcall", "ctor"):
-            defs.pop(x["d"])
-    atoms, eff = {}, {}
-    for d, lst in defs.items():
-        if all(v in (0, 1) for (_, v) in lst) and len(vocab_atoms) + len(atoms) < 10:
-            atoms[d] = "flag:%d" % d
-            for (e, v) in lst:
-                eff.setdefault(e, []).append(("set", atoms[d], bool(v)))
+            if l is not None and l.get("k") == "var" and l.get("d") in decls and l.get("parm") is None:
+                defs.setdefault(e, []).append((l["d"], n["rhs"] if n["op"] == "=" else None, False))
+    for x in f.nodes.values():        # a local handed to a call may be written there: not tracked
+        if x.get("k") == "var" and x.get("d") in decls and x.get("parm") is None and (f.nodes.get(f.parent.get(x["id"])) or {}).get("k") in ("call", "mcall", "ctor", "opcall"):
+            decls.discard(x["d"])
+    atoms = {d: "b:%d" % d for d in sorted(decls)[:max(0, 10 - nbase)]}
 
     def leaf(n):
-        return A(atoms[n["d"]]) if n.get("k") == "var" and n.get("parm") is None and n.get("d") in atoms else None
-    return leaf, (lambda e: eff.get(e)), sorted(atoms.values())
+        r = inner(n)
+        if r is None and n.get("k") == "var" and n.get("parm") is None and n.get("d") in atoms:
+            return A(atoms[n["d"]])
+        return r
+
+    def eff(e):
+        ops = []
+        for (d, rhs, uninit) in defs.get(e, []):
+            if d not in atoms:
+                continue
+            a = atoms[d]
+            cv = const_value(rhs) if rhs is not None else None
+            if cv in (0, 1):
+                ops.append(("set", a, bool(cv)))
+                continue
+            fm = translate(rhs, leaf) if rhs is not None else None
+            tf = total(fm)
+            if tf is not None:
+                ops.append(("assign", a, tf))
+            else:
+                ops += [("havoc", a), ("assume", Or(Not(A(a)), known_when(fm, True))), ("assume", Or(A(a), known_when(fm, False)))]
+        return ops
+    return leaf, eff, sorted(atoms.values())
 
 
 def r1(ctx, r):
@@ -407,6 +436,26 @@ def r3(ctx, r):
         raise AnalysisBroken("worker: the local that receives `_tasks.front()` was not identified")
     is_task = lambda x: x is not None and x.get("k") == "var" and x.get("d") == td and x.get("parm") is None
     calls = [e for (e, t) in common.fn_invocations(w) if is_task(strip_wrappers(t))]
+    # the task may be run inside a local lambda of the worker that receives it by reference (`runTask(task)`): the runner is then
+    # that lambda and the task its parameter.  The call counts as one run of the task when the lambda, on every path from its
+    # entry to its exit (handlers included), invokes the parameter exactly once; context and release are judged inside it.
+    runner, is_rt, rcalls = w, is_task, calls
+    if not calls:
+        cand = []
+        for e in w.stmts():
+            ll = local_lambda_call(w, e.node)
+            if ll is not None:
+                js = [j for j, a in enumerate(ll[1]) if is_task(strip_wrappers(a))]
+                if len(js) == 1 and js[0] < len(ll[0].params) and (ll[0].params[js[0]].get("t") or "").strip().endswith("&") and not (ll[0].params[js[0]].get("t") or "").startswith("const "):
+                    cand.append((e, ll[0], js[0]))
+        if len(cand) == 1:
+            ce, runner, pj = cand[0]
+            is_rt = lambda x: x is not None and x.get("k") == "var" and x.get("parm") == pj
+            rcalls = [e for (e, t) in common.fn_invocations(runner) if is_rt(strip_wrappers(t))]
+            rpa = PredAbs(runner, Vocab(["ran", "twice"]), lambda n: None, lambda e: [("assign", "twice", Or(A("twice"), A("ran"))), ("set", "ran", True)] if e in rcalls else None,
+                          init=And(Not(A("ran")), Not(A("twice"))), eh_after=True)
+            if rcalls and rpa.exit_entails(And(A("ran"), Not(A("twice")))):
+                calls = [ce]
     vocab = Vocab(["have", "ran", "twice", "nonempty"])
 
     def leaf(n):
@@ -433,18 +482,18 @@ def r3(ctx, r):
         r.expect(pa.entails(h, goal), w, h, "dequeued task not run exactly once", "the worker can reach %s having dequeued a task that ran %s (known: %s)" % (
             "the next iteration" if h in heads else "a return", "twice" if "twice" in pa.describe(h) else "zero or an unknown number of times", ",".join(pa.describe(h))),
             okdesc="worker: a dequeued task runs exactly once before the next iteration/exit")
-    for c in calls:
+    for c in rcalls:
         r.instance()
-        t = w.trys.get(c.try_id, {})
-        r.expect(not (la.mutexes(w, c) & {M, CM}) and c.try_id and "..." in t.get("handlers", []), w, c, "task invocation context",
+        t = runner.trys.get(c.try_id, {})
+        r.expect(not (la.mutexes(runner, c) & {M, CM}) and c.try_id and "..." in t.get("handlers", []), w, c, "task invocation context",
                  "the task is invoked holding a pool lock or outside a catch-all try: a throwing task would kill the worker (and lose every later task of its share)",
                  okdesc="task() lock-free inside try/catch(...)")
     # the task object is released before the active counter drops
-    decs = [e for e in w.stmts() if e.node.get("k") in ("opcall", "mcall") and field_of((e.node.get("args") or [e.node.get("obj")])[0] if e.node.get("k") == "opcall" else e.node.get("obj")) == TP + "::_activeThreads" and
+    decs = [e for e in runner.stmts() if e.node.get("k") in ("opcall", "mcall") and field_of((e.node.get("args") or [e.node.get("obj")])[0] if e.node.get("k") == "opcall" else e.node.get("obj")) == TP + "::_activeThreads" and
             (e.node.get("op") == "--" or last(e.node.get("callee", "")) == "fetch_sub")]
-    rel = [e for e in w.stmts() if e.node.get("k") == "opcall" and e.node.get("op") == "=" and is_task(e.node["args"][0]) and not any(x is fr for x in walk(e.node))]
+    rel = [e for e in runner.stmts() if e.node.get("k") == "opcall" and e.node.get("op") == "=" and is_rt(strip_wrappers(e.node["args"][0])) and not any(x is fr for x in walk(e.node))]
     r.instance()
-    r.expect(decs and rel and all(any(elem_dominates(w, x, d) for x in rel) for d in decs), w, decs[0] if decs else None, "task released late",
+    r.expect(decs and rel and all(any(elem_dominates(runner, x, d) for x in rel) for d in decs), w, decs[0] if decs else None, "task released late",
              "the finished task's closure is not destroyed before _activeThreads is decremented: shutdown can proceed while captured objects are still alive/being destroyed",
              okdesc="task = {} before --_activeThreads")
 
@@ -452,9 +501,26 @@ def r3(ctx, r):
 def r4(ctx, r):
     la = ctx.locks()
     w, waits = _worker_abs(ctx)
+    wfn, real = w, None
+    if not waits:
+        # the wait may live in a local lambda of the worker that is handed the lock and returns the wait's result
+        # (`woken = waitForWork(lock)`): the call then stands for the wait — same havoc, same result — provided the lambda holds
+        # _mutex at its wait (entry lock set from the call site), returns nothing but that result and does not touch the queue
+        cand = []
+        for e in w.stmts():
+            ll = local_lambda_call(w, e.node)
+            if ll is not None:
+                L = ll[0]
+                lw = [x for x in L.stmts() if x.node.get("k") == "mcall" and x.node.get("callee", "").startswith("std::condition_variable") and last(x.node["callee"]) in common.CV_WAIT]
+                if len(lw) == 1 and common.returns(L) and all(strip_wrappers(through_locals(L, x.node.get("v") or {})) is lw[0].node for x in common.returns(L)) and la.holds(L, lw[0], M) \
+                        and not any(tasks_call(x.node) in ("pop", "pop_front", "emplace", "push") for x in L.stmts()):
+                    cand.append((e, L, lw[0]))
+        if len(cand) == 1:
+            waits, wfn, real = [cand[0][0]], cand[0][1], cand[0][2]
     if len(waits) != 1:
         raise AnalysisBroken("worker: %d condition-variable waits" % len(waits))
     wait = waits[0]
+    real = real or wait
     vocab = Vocab(["shutdown", "empty", "wr"])
     # the local that holds the wait's result is the one initialised from the wait call (identified by dataflow, not by its name)
     wrd = ([v["d"] for e in w.stmts() if e.node.get("k") == "decl" for v in e.node["vars"] if v.get("init") is not None and strip_wrappers(v["init"]) is wait.node] + [None])[0]
@@ -464,12 +530,12 @@ def r4(ctx, r):
             return A("shutdown")
         if n.get("k") == "mcall" and tasks_call(n, ("empty",)):
             return A("empty")
-        if n.get("k") == "var" and n.get("d") == wrd and n.get("parm") is None:
-            return A("wr")
+        if (n.get("k") == "var" and n.get("d") == wrd and n.get("parm") is None) or n is wait.node:
+            return A("wr")        # the named result, or the wait call itself used as the condition (also after facts.py put a `const bool`'s initialiser in its place)
         return None
     # predicate of the wait
-    args = [a for a in wait.node["args"] if not a.get("def")]
-    P = common._resolve_pred(ctx.fb(), w, args[-1]) if len(args) >= 3 else None
+    args = [a for a in real.node["args"] if not a.get("def")]
+    P = common._resolve_pred(ctx.fb(), wfn, args[-1]) if len(args) >= 3 else None
     pf = None
     if P is not None:
         rets = [x.node for x in P.stmts() if x.node.get("k") == "ret"]
@@ -493,7 +559,7 @@ def r4(ctx, r):
             if any(is_lock_type(v["t"]) for v in n["vars"]):
                 return [("havoc_all", ["shutdown", "empty"])]
         if e is wait and not any(True for x in [w.nodes.get(w.parent.get(wait.node["id"]))] if x is not None and x.get("k") == "decl"):
-            return [("havoc_all", ["shutdown", "empty", "wr"])]
+            return [("havoc_all", ["shutdown", "empty"]), ("assign", "wr", pf) if pf is not None else ("havoc", "wr")]
         if tasks_call(n) in ("pop", "pop_front", "emplace", "push"):
             return [("havoc", "empty")]
         return None
@@ -514,10 +580,30 @@ def r4(ctx, r):
 def r5(ctx, r):
     fb, la = ctx.fb(), ctx.locks()
     p1 = fn(ctx, "shutdownPhase1_SignalShutdown")
-    sets = [(e, n) for (e, n, k) in common.field_writes(p1, TP + "::_shutdown")]
-    nots = [e for e in p1.stmts() if e.node.get("k") == "mcall" and last(e.node.get("callee", "")) == "notify_all"]
+    # phase 1 sets _shutdown under _mutex and then notifies all.  The store may live in a private helper the phase calls under its
+    # lock (its entry lock set comes from the call sites); "then notify_all" is decided by two ghosts — `set` (this call stored true:
+    # direct store, a helper all of whose paths store, or a helper whose result says whether it stored — result_table) and
+    # `notified` — with bool locals that carry the helper's result followed as atoms: at every exit, set implies notified.
+    is_set = lambda e: e.kind == "stmt" and _flag_store(e.fn, e) == ("set", True)
+    is_nall = lambda e: e.kind == "stmt" and e.node.get("k") == "mcall" and last(e.node.get("callee", "")) == "notify_all"
+    sets = [(g, e) for g in [p1] + helpers_from(ctx, p1) for e in g.stmts() if is_set(e)]
+    sleaf, seff, satoms = bool_locals(p1, result_leaf(ctx, p1, is_set, "set"), 2)
+
+    def s1eff(e):
+        ops = []
+        if e.kind == "stmt":
+            if is_set(e):
+                ops += [("set", "set", True), ("set", "notified", False)]
+            elif is_nall(e):
+                ops.append(("set", "notified", True))
+            else:
+                h = helper(ctx, e.node)
+                if h is not None and may(ctx, h, is_set):
+                    ops += [("set", "set", True) if always(ctx, h, is_set) else ("havoc", "set"), ("set", "notified", False)]
+        return ops + list(seff(e) or [])
+    spa = PredAbs(p1, Vocab(["set", "notified"] + satoms), sleaf, s1eff, init=And(Not(A("set")), Not(A("notified"))))
     r.instance()
-    r.expect(len(sets) == 1 and la.holds(p1, sets[0][0], M) and nots and elem_dominates(p1, sets[0][0], nots[0]), p1, None, "shutdown signal", "phase 1 does not set _shutdown under _mutex and then notify_all",
+    r.expect(len(sets) == 1 and la.holds(sets[0][0], sets[0][1], M) and spa.exit_entails(Or(Not(A("set")), A("notified"))), p1, None, "shutdown signal", "phase 1 does not set _shutdown under _mutex and then notify_all",
              okdesc="phase 1: _shutdown = true under _mutex, then notify_all")
     p4 = fn(ctx, "shutdownPhase4_JoinThreads")
     joins = [e for e in p4.stmts() if e.node.get("k") == "mcall" and e.node.get("callee") == "std::thread::join"]
@@ -535,14 +621,13 @@ def r5(ctx, r):
     # the loop ends only when no joinable entry is left: at the function's exit the most recent look at the worker map (critical
     # section over `_threads`) took nothing out of it.  Ghost `took`: cleared where _mutex is acquired, set where an entry is erased
     # from `_threads`; when the scan lives in a helper, the helper's result says whether it took one (result_table); a bool flag
-    # local set in the scan (`found`) is followed as an atom of its own (flag_locals) — no local is known by name.
+    # local set in the scan (`found`) is followed as an atom of its own (bool_locals) — no local is known by name.
     r.instance()
     is_take = lambda e: e.kind == "stmt" and e.node.get("k") == "mcall" and field_of(e.node.get("obj")) == TP + "::_threads" and last(e.node.get("callee", "")) in ("erase", "extract")
     takes = [(g, e) for g in [p4] + helpers_from(ctx, p4) for e in g.stmts() if is_take(e)]
     if not takes:
         raise AnalysisBroken("phase 4: no removal of a worker entry from _threads found (neither in the function nor in the pool's helpers it calls)")
-    fleaf, feff, fatoms = flag_locals(p4, ["took"])
-    rleaf = result_leaf(ctx, p4, is_take, "took")
+    tleaf, feff, fatoms = bool_locals(p4, result_leaf(ctx, p4, is_take, "took"), 1)
     lockdecl = {v["d"] for e in p4.stmts() if e.node.get("k") == "decl" for v in e.node["vars"] if M in (la.fn(p4).lockvars.get(v["d"]) or ((),))[0]}
 
     def teff(e):
@@ -557,7 +642,7 @@ def r5(ctx, r):
                 if h is not None and may(ctx, h, is_take):
                     ops.append(("set", "took", True) if always(ctx, h, is_take) else ("havoc", "took"))
         return ops
-    tpa = PredAbs(p4, Vocab(["took"] + fatoms), lambda n: rleaf(n) or fleaf(n), teff, init=Not(A("took")))
+    tpa = PredAbs(p4, Vocab(["took"] + fatoms), tleaf, teff, init=Not(A("took")))
     r.expect(tpa.exit_entails(Not(A("took"))), p4, None, "join loop exit", "phase 4 can return although its last look at the worker map still took a joinable worker out of it: the loop no longer runs until no joinable worker is found "
              "(known at exit: %s)" % ",".join(tpa.describe_exit()), okdesc="phase 4 loops until a scan of _threads takes nothing")
     for name in ("<dtor>", "shutdown"):
@@ -652,8 +737,49 @@ def r7(ctx, r):
         raise AnalysisBroken("no insertion into _threads found")
 
 
+class _View:
+    def __init__(self, base, **over):
+        self._base = base
+        self.__dict__.update(over)
+
+    def __getattr__(self, k):
+        return getattr(self._base, k)
+
+
+class LocksThroughRefParams:
+    """the lock analysis, seen so that a `std::unique_lock<…> &` parameter of a local lambda stands for the lock variable handed
+    to it at its call sites in the enclosing function (all call sites must pass a lock on the same mutexes): a wait that was moved
+    into a local lambda which is given the lock waits on the same mutex as before"""
+
+    def __init__(self, la):
+        self._la = la
+
+    def __getattr__(self, k):
+        return getattr(self._la, k)
+
+    def fn(self, f):
+        fl = self._la.fn(f)
+        enc = f.enclosing if f.kind == "lambda" else None
+        if enc is None or not enc.ok:
+            return fl
+        extra = {}
+        for i, prm in enumerate(f.params):
+            t = (prm.get("t") or "").strip()
+            if not (is_lock_type(t) and t.endswith("&")) or prm.get("d") is None:
+                continue
+            seen = set()
+            for e in enc.stmts():
+                ll = local_lambda_call(enc, e.node)
+                if ll is not None and ll[0] is f:
+                    a = strip_wrappers(ll[1][i]) if i < len(ll[1]) else None
+                    seen.add(self.fn(enc).lockvars.get(a.get("d")) if a is not None and a.get("k") == "var" else None)
+            if len(seen) == 1 and None not in seen:
+                extra[prm["d"]] = seen.pop()
+        return _View(fl, lockvars={**fl.lockvars, **extra}) if extra else fl
+
+
 def r8(ctx, r):
-    fb, la = ctx.fb(), ctx.locks()
+    fb, la = ctx.fb(), LocksThroughRefParams(ctx.locks())
     n = common.cv_discipline(r, fb, la, lambda f: f.file.endswith(FILE))
     if n < 1:
         raise AnalysisBroken("no condition-variable wait found in thread_pool.hpp")
@@ -1036,6 +1162,13 @@ def r10(ctx, r):
             lhs, rhs = strip_casts(lhs), strip_casts(rhs)
             if op == ">":
                 op, lhs, rhs = "<", rhs, lhs
+            # `i != N` with i counting up from 0 in steps of one runs exactly as often as `i < N` (N unsigned); either way round
+            if op == "!=" and lhs.get("k") != "var" and rhs.get("k") == "var":
+                lhs, rhs = rhs, lhs
+            if op == "!=" and lhs.get("k") == "var" and any(st.node.get("k") == "decl" and any(v["d"] == rhs.get("d") and const_value(strip_casts(v.get("init") or {})) == 0 for v in st.node["vars"]) for st in f.stmts() if rhs.get("k") == "var"):
+                lhs, rhs = rhs, lhs
+            if op == "!=":
+                op = "<"
             # the counter: a local initialised to 0 and incremented once per iteration
             ctr_ok = op == "<" and lhs.get("k") == "var" and any(st.node.get("k") == "decl" and any(v["d"] == lhs.get("d") and const_value(strip_casts(v.get("init") or {})) == 0 for v in st.node["vars"]) for st in f.stmts()) \
                 and sum(1 for st in f.stmts() if st.node.get("k") == "un" and st.node.get("op") in ("++", "pre++", "post++") and strip_casts(st.node["v"]).get("d") == lhs.get("d")) == 1
